@@ -17,6 +17,7 @@ type State struct {
 	obs     []Observation
 	written map[int]bool // ids of objects written on this path (write-set monitor)
 	steps   int
+	symBack int // symbolically feasible loop back edges taken on this path
 }
 
 type Choice struct {
@@ -44,6 +45,7 @@ func (st *State) fork() *State {
 		obs:     st.obs[:len(st.obs):len(st.obs)],
 		written: map[int]bool{},
 		steps:   st.steps,
+		symBack: st.symBack,
 	}
 	for k, v := range st.tags {
 		n.tags[k] = v
@@ -307,6 +309,11 @@ func mergeStates(a, b *State, va, vb Value) (*State, Value, bool) {
 		st.steps = a.steps
 	} else {
 		st.steps = b.steps
+	}
+	if a.symBack > b.symBack {
+		st.symBack = a.symBack
+	} else {
+		st.symBack = b.symBack
 	}
 	a.ep, b.ep = &epoch{}, &epoch{}
 	return st, mv, true
